@@ -207,16 +207,37 @@ type CryptoAgileLog struct {
 	Events []*TCGPCREvent2
 }
 
+// countingReader counts the bytes delivered by the wrapped reader.
+type countingReader struct {
+	r io.Reader
+	n int64
+}
+
+func (c *countingReader) Read(p []byte) (int, error) {
+	n, err := c.r.Read(p)
+	c.n += int64(n)
+	return n, err
+}
+
 // Unmarshal reads a CryptoAgileLog from the given reader.
 func (cel *CryptoAgileLog) Unmarshal(r io.Reader) error {
 	if err := littleRead(r, "Header", &cel.Header); err != nil {
 		return err
 	}
+	cr := &countingReader{r: r}
 	for {
+		start := cr.n
 		evt := &TCGPCREvent2{}
-		if err := littleRead(r, "Event", evt); err != nil {
+		if err := littleRead(cr, "Event", evt); err != nil {
 			if errors.Is(err, io.EOF) {
-				return nil
+				// The log ends cleanly only between events. An EOF after part of an event was
+				// consumed means the log is truncated; dropping the partial event silently would
+				// hide measurements from the caller.
+				if cr.n == start {
+					return nil
+				}
+				return fmt.Errorf("event log truncated inside event %d (%d bytes of it read): %w",
+					len(cel.Events), cr.n-start, io.ErrUnexpectedEOF)
 			}
 			return err
 		}
